@@ -16,6 +16,8 @@ type Event struct {
 	Fin     bool // 'F' only
 	Code    int  // 'C' only (1005: empty body)
 	Payload []byte
+	// Raw (Cfg.KeepRaw): the slice the callback was handed, not a copy; not part of SameEvent
+	Raw []byte `json:"-"`
 }
 
 func (e Event) String() string {
